@@ -77,25 +77,36 @@ def ledger_of(funcs):
     return led
 
 
-def roundtrip(fmt, S, roots, T, levels, fname):
+PICKLE_EXT = ('.p', '.P')
+JSON_EXT = ('.json', '.JSON', '.Json')
+
+
+def roundtrip(fmt, S, roots, T, levels, fname, xcase=0):
     """Dump `roots` (container of Functions of autoref manager S) and load
     into autoref manager T (may be S).  Returns container of int nodes of
-    T._bdd and list of Function objects created by the loader."""
+    T._bdd and list of Function objects created by the loader.
+
+    The `dump` / `load` methods infer the file type from the extension
+    "case insensitive" (docstrings of `dd.bdd.BDD.dump`,
+    `dd.autoref.BDD.dump`): `xcase` selects the spelling of the extension.
+    """
     import dd._copy as _copy
+    pext = PICKLE_EXT[xcase % len(PICKLE_EXT)]
+    jext = JSON_EXT[xcase % len(JSON_EXT)]
     if fmt == 'bdd.pickle':
         if isinstance(roots, dict):
             r = {k: f.node for k, f in roots.items()}
         else:
             r = [f.node for f in roots]
-        S._bdd.dump(fname + '.p', roots=r)
-        back = T._bdd.load(fname + '.p', levels=levels)
+        S._bdd.dump(fname + pext, roots=r)
+        back = T._bdd.load(fname + pext, levels=levels)
         return back, []
     if fmt == 'autoref.pickle':
-        S.dump(fname + '.p', roots=roots)
-        back = T.load(fname + '.p', levels=levels)
+        S.dump(fname + pext, roots=roots)
+        back = T.load(fname + pext, levels=levels)
     elif fmt == 'autoref.json':
-        S.dump(fname + '.json', roots=roots)
-        back = T.load(fname + '.json')
+        S.dump(fname + jext, roots=roots)
+        back = T.load(fname + jext)
     else:
         _copy.dump_json(roots, fname + '.json')
         back = _copy.load_json(fname + '.json', T, load_order=True)
@@ -175,7 +186,8 @@ def check_case(case, cwd):
         if fmt == '_copy.json.load_order':
             conflict = len(to) != len(so)
     try:
-        back, fs = roundtrip(fmt, S, roots, T, levels, fname)
+        xcase = n + len(tabs) + (1 if case['as_dict'] else 0)
+        back, fs = roundtrip(fmt, S, roots, T, levels, fname, xcase)
     except (ValueError, AssertionError) as e:
         if not conflict:
             raise
@@ -187,7 +199,7 @@ def check_case(case, cwd):
             require(d(f.node) == t, 'load.refusal_changed_function')
         return 'refused'
     finally:
-        for ext in ('.p', '.json'):
+        for ext in PICKLE_EXT + JSON_EXT:
             if os.path.exists(fname + ext):
                 os.remove(fname + ext)
     require(not conflict or fmt == '_copy.json.load_order' or True,
